@@ -262,6 +262,45 @@ def run(ctx):
       ctx.count('strict_pd', 1)
       if oc == 'ok':
         ctx.fail_input('strict_pd', name + ' accepts a singular prior', dict(estimator=name, prior=S.tolist()))
+    # ---- 4b. an array prior / init means its numbers, whatever its dtype or layout (int64, int32, float32, Fortran)
+    Bi = rng.integers(-2, 3, size=(d, d)).astype(float)
+    Ai = Bi.T.dot(Bi) + 2 * np.eye(d)               # integer-valued SPD
+    Li = np.eye(d) + np.triu(rng.integers(-1, 2, size=(d, d)).astype(float), 1)   # integer-valued transformation
+    for name in ('ITML', 'LSML', 'SDML', 'MMC', 'LMNN', 'NCA', 'MLKR'):
+      key = 'init' if name in ('MMC', 'LMNN', 'NCA', 'MLKR') else 'prior'
+      base = Li if name in ('LMNN', 'NCA', 'MLKR') else Ai
+      kw0 = fits.base_kwargs(name, data)
+      if 'max_iter' in kw0 or name in ('ITML', 'LSML', 'MMC', 'LMNN', 'NCA', 'MLKR'):
+        kw0['max_iter'] = 5
+      ref = None
+      for vname, arr in (('float64', base.copy()), ('int64', base.astype(np.int64)), ('int32', base.astype(np.int32)),
+                         ('float32', base.astype(np.float32)), ('fortran', np.asfortranarray(base))):
+        kw = dict(kw0)
+        kw[key] = arr
+        with warnings.catch_warnings():
+          warnings.simplefilter('ignore')
+          oc, r = outcome(lambda: fits.fit(name, kw, data))
+        ctx.count('array_dtype', 1)
+        if vname == 'float64':
+          ref = r.components_ if oc == 'ok' else None
+          if oc != 'ok':
+            break                                    # (the float64 fit itself is C03's business)
+          continue
+        if oc != 'ok':
+          ctx.fail_input('array_dtype', '%s: %s array given as %s raises %s' % (name, key, vname, oc),
+                         dict(estimator=name, option=key, dtype=vname, array=base.tolist()))
+        elif r.components_.shape != ref.shape or r.components_.dtype.kind != 'f' or \
+            not np.allclose(r.components_, ref, rtol=1e-5, atol=1e-7 * (1 + np.abs(ref).max())):
+          ctx.fail_input('array_dtype', '%s: %s array given as %s learns a different model than the same numbers as float64' % (name, key, vname),
+                         dict(estimator=name, option=key, dtype=vname, array=base.tolist()),
+                         observed=float(np.abs(r.components_ - ref).max()) if r.components_.shape == ref.shape else str(r.components_.shape))
+    for vname, Mi in (('int64 diagonal', np.diag(np.arange(1, d + 1)).astype(np.int64)), ('int64 dense', Ai.astype(np.int64)),
+                      ('int32 diagonal with a zero', np.diag(np.arange(0, d)).astype(np.int32)), ('float32 dense', Ai.astype(np.float32))):
+      oc, L = outcome(lambda: components_from_metric(Mi))
+      ctx.count('array_dtype', 1)
+      if oc != 'ok' or not np.allclose(L.T.dot(L), Mi, rtol=1e-5, atol=1e-6):
+        ctx.fail_input('array_dtype', 'components_from_metric on a PSD matrix of type %s: %s' % (vname, oc if oc != 'ok' else 'L^T L != M'),
+                       dict(matrix=Mi.tolist(), dtype=vname))
     # ---- 5. transformation initialisers
     y = data['y']
     if rng.random() < 0.5:
